@@ -104,7 +104,7 @@ Proof.
     assert (OG : overlay_given p) by (eapply overlay_given_of_bools; eauto).
     apply overlay_fx; auto.
     + apply contract_by_structural_induction; auto.
-    + apply contract_by_structural_induction; auto.
+    + exists 1. apply contract_by_structural_induction; auto.
     + split; [exact OG|]. destruct (ov_wt p); auto. destruct (ov_minw p); lia.
   - (* PNil *) intros; constructor.
   - (* PCons *) intros w IHw k n r IHr ps Hw Hp Hf Hl Hx Hs.
